@@ -240,7 +240,7 @@ def run(chk, args):
     need = ["placement-compared", "chunks-compared", "cut-points", "old-value:explicit-error", "old-value:still-served", "export:values",
             "export:digests", "export:error", "op:append(parked)", "op:commit", "op:restart", "op:DualProof", "op:Get", "repro:export-after-partially-truncated-tx",
             "trunc:tx-beyond-MaxConcurrency-in-file-below-cut-file", "replica:early-written-tx-layouts"] + ["trunc:early-written-tx-at-distance:%d" % d for d in range(1, D + 1)] + [
-            "db:truncations", "db:restart", "db:old-row-error", "db:row-served", "db:doc-served", "free:truncations", "race:each-call-held-one-log"]
+            "db:truncations", "db:restart", "db:refused-exports", "db:requests-after-refused-exports", "db:old-row-error", "db:row-served", "db:doc-served", "free:truncations", "race:each-call-held-one-log"]
     missing = [k for k in need if not c.get(k)]
     if missing:
         raise MachineryFault("vacuous run: counters %s are zero" % missing)
